@@ -214,6 +214,23 @@ let handle (req : sx) : string =
       (match print_sshape (List.map axis_of axes) with
        | Err e -> "PRINT_ERR " ^ exn_str e
        | Ok s -> "OK " ^ hx s)
+  | L (A "mk" :: what :: args) ->
+      let opnd_of = function
+        | L [A "int"; z] -> OInt (z_of z)
+        | L [A "sym"; t] -> OSym (sym_of t)
+        | L [A "const"; n; v] -> OConst (str_of n, z_of v)
+        | A "anon" -> OAnon
+        | L [A "star"; n] -> OStar (str_of n)
+        | _ -> failwith "operand" in
+      let r = (match what, args with
+        | A "isqrt", [a] -> mk_isqrt (opnd_of a)
+        | A "min", [a; b] -> mk_fun2 MIN (opnd_of a) (opnd_of b)
+        | A "max", [a; b] -> mk_fun2 MAX (opnd_of a) (opnd_of b)
+        | o, [a; b] -> mk_bin (op_of o) (opnd_of a) (opnd_of b)
+        | _ -> failwith "mk") in
+      (match r with
+       | Err e -> "BUILD_ERR " ^ exn_str e
+       | Ok t -> (match sprint t with Err e -> "PRINT_ERR " ^ exn_str e | Ok s -> "OK " ^ hx s))
   | L [A "env"; d; g] ->
       (match read_env (opt_of str_of d) (opt_of str_of g) with
        | ImportFails -> "IMPORT_FAILS" | ImportOk (x, y) -> "OK disable=" ^ b x ^ " debug=" ^ b y)
@@ -221,6 +238,7 @@ let handle (req : sx) : string =
   | L [A "orig"; k; scripting; en] ->
       let k = (match k with A "fn" -> KFunction | A "nt" -> KNamedTuple | A "dc" -> KDataclass | _ -> failwith "kind") in
       b (returns_original k (bool_of scripting) (bool_of en))
+  | L [A "classdef"; dts; scalars] -> b (class_def_refused (list_of dtok_of dts) (list_of adtype_of scalars))
   | L [A "dtype"; dts; l; d] -> b (dtype_accepted (list_of dtok_of dts) (lib_of l) (adtype_of d))
   | _ -> failwith "unknown request"
 
